@@ -33,6 +33,7 @@ res = {"mutdir": mutdir, "worktree": wt, "demo_tests": names, "at": time.strftim
 sh(["git", "checkout", "--", "."])
 sh(["git", "clean", "-fdq", "-e", "target"])
 for p in demos:
+    os.makedirs(os.path.join(wt, dest), exist_ok=True)
     sh(["cp", "-r", p, os.path.join(wt, dest)])
 # 1. pristine
 args = ["cargo", "nextest", "run", "--offline", "-p", pkg, "--no-fail-fast"]
